@@ -374,7 +374,7 @@ async fn export_partitions(t: &Tbl, q: &[i64], qp: &QP, no_order: bool) -> Resul
 /// One `Scanner::nearest` query: oracle + `search` stream.
 async fn query(t: &Tbl, rng: &mut Rng, sink: &mut Sink, st: &mut Streams, qp: QP, arm: &str) -> Result<(), String> {
     let dim = t.dim;
-    let mut q: Vec<i64> = (0..dim).map(|_| rng.range(0, 2 * t.mag as u64) as i64 - t.mag).collect();
+    let mut q: Vec<i64> = if t.axis { axis_vec(rng, dim, t.mag) } else { (0..dim).map(|_| rng.range(0, 2 * t.mag as u64) as i64 - t.mag).collect() };
     if qp.metric == MetricType::Cosine && q.iter().all(|x| *x == 0) {
         q[0] = 1;
     }
@@ -417,10 +417,13 @@ async fn query(t: &Tbl, rng: &mut Rng, sink: &mut Sink, st: &mut Streams, qp: QP
     let universe: Vec<&Row> = t.physical().into_iter().filter(|r| !r.deleted && r.vec.is_some() && (!(indexed && qp.fast) || in_index(r))).collect();
     let zero = |r: &Row| r.vec.as_ref().map(|v| v.iter().all(|x| *x == 0)).unwrap_or(false);
     let mut fails: Vec<String> = vec![];
+    let mut known: Vec<(&str, String)> = vec![];
     match &res {
         Err(e) => {
             if qp.k == 0 || (indexed && qp.refine == Some(0)) {
                 // documented errors
+            } else if indexed && t.ety != Ety::F32 && (e.contains("panic") || e.contains("Join Error")) {
+                known.push(("ivf_flat_non_f32", format!("query through an IVF_FLAT index on a {:?} column failed: {}", t.ety, e.chars().take(160).collect::<String>())));
             } else {
                 fails.push(format!("query failed: {}", e.chars().take(200).collect::<String>()));
             }
@@ -473,22 +476,31 @@ async fn query(t: &Tbl, rng: &mut Rng, sink: &mut Sink, st: &mut Streams, qp: QP
             // exact modes: the k smallest eligible distances
             let elig: Vec<&Row> = universe.iter().copied().filter(|r| !(has_filter && qp.prefilter) || qp.flt.pass(r)).collect();
             if cosine {
-                // zero vectors have an undefined cosine distance: they may only appear after every defined one
+                // zero vectors have an undefined (NaN) cosine distance: they may only fill the places that rows with
+                // a defined distance cannot fill
                 let mut exp: Vec<f64> = elig.iter().filter(|r| !zero(r)).map(|r| cos64(&q, &r.vec).unwrap()).collect();
                 exp.sort_by(|a, b| a.partial_cmp(b).unwrap());
                 let nz = elig.iter().filter(|r| zero(r)).count();
                 let tol = if t.ety == Ety::F16 { 4e-3 } else { 1e-4 };
                 if (exact_mode || late_mode) && (qp.prefilter || !has_filter) {
                     let defined: Vec<f32> = got.iter().filter(|g| byid.get(&g.0).map(|r| !zero(r)).unwrap_or(true)).map(|g| g.1.unwrap_or(f32::NAN)).collect();
+                    let gz = got.len() - defined.len();
+                    // rows with a defined distance: min(k, defined eligible) of them; zero vectors are optional extras
+                    // (a cosine IVF index does not hold them at all) that may only fill otherwise empty places
                     let want = qp.k.min(exp.len());
-                    if exact_mode && !(defined.len() == want || (defined.len() < want && false)) {
-                        fails.push(format!("cosine: {} rows with a defined distance returned, {} expected (k = {}, eligible = {}, zero vectors = {})", defined.len(), want, qp.k, exp.len(), nz));
+                    if defined.len() > want || got.len() > qp.k.min(elig.len()) {
+                        fails.push(format!("cosine: {} results ({} defined), k = {}, eligible = {} ({} defined)", got.len(), defined.len(), qp.k, elig.len(), exp.len()));
+                    } else if defined.len() < want {
+                        if gz > 0 && defined.len() + gz >= want {
+                            known.push(("cosine_zero_vector", format!("cosine: {gz} zero vectors (NaN distance) returned, displacing rows with a defined distance (k = {}, defined eligible = {}, zero eligible = {nz})", qp.k, exp.len())));
+                        } else {
+                            fails.push(format!("cosine: {} rows with a defined distance returned, min(k, defined eligible) = {}", defined.len(), want));
+                        }
+                    } else if got.iter().enumerate().any(|(i, g)| byid.get(&g.0).map(|r| zero(r)).unwrap_or(false) && i < got.len() - 1 && !byid.get(&got[i + 1].0).map(|r| zero(r)).unwrap_or(false)) {
+                        known.push(("cosine_zero_vector", "cosine: a zero vector (NaN distance) is ranked ahead of a row with a defined distance".into()));
                     }
                     if exact_mode && defined.iter().zip(&exp).any(|(a, b)| (*a as f64 - b).abs() > tol) {
-                        fails.push("cosine: returned distances are not the k smallest eligible distances".into());
-                    }
-                    if got.len() < qp.k.min(elig.len()) && got.len() < want {
-                        fails.push("cosine: fewer results than min(k, eligible)".into());
+                        fails.push("cosine: the returned defined distances are not the smallest eligible distances".into());
                     }
                 }
             } else {
@@ -531,16 +543,19 @@ async fn query(t: &Tbl, rng: &mut Rng, sink: &mut Sink, st: &mut Streams, qp: QP
             }
         }
     }
-    if fails.is_empty() {
-        sink.oracle_ok();
-    } else {
+    if !fails.is_empty() {
         let mut c = case.clone();
         c["all_failures"] = json!(fails);
         sink.oracle_fail(None, &format!("C22 {arm}: {}", fails[0]), c);
+    } else if let Some((class, what)) = known.first() {
+        sink.oracle_fail(Some(class), &format!("C22 {arm}: {what}"), case.clone());
+    } else {
+        sink.oracle_ok();
     }
 
     // ---- model stream (exact-integer metrics; partial probing uses the real probe order; late search is not modelled)
-    if (!cosine || t.axis) && !late_mode && export_ok {
+    // (cosine partial probing: the probe order needs the normalised key; not exported)
+    if (!cosine || (t.axis && exact_mode)) && !late_mode && export_ok {
         let mk = |r: &Row| crow(r.id as i64, &exact_key(qp.metric, &q, &r.vec), r.deleted, qp.flt.pass(r));
         let mut unknown = 0i64;
         let mut dl_s = vec![];
@@ -574,7 +589,7 @@ async fn query(t: &Tbl, rng: &mut Rng, sink: &mut Sink, st: &mut Streams, qp: QP
             t.physical().into_iter().map(|r| mk(r)).collect()
         };
         let inp = format!(
-            "((({}, {}, {}), ({}, {}, {}, {}, {})), {}, {})",
+            "((({}, {}, {}), ({}, {}, {}, {}, {}, {})), {}, {})",
             format!("{}%nat", qp.k),
             coq::opt(qp.refine.map(|r| format!("{}%nat", r))),
             format!("{}%nat", qp.nprobes.unwrap_or(0)),
@@ -583,11 +598,13 @@ async fn query(t: &Tbl, rng: &mut Rng, sink: &mut Sink, st: &mut Streams, qp: QP
             coq::b(qp.prefilter),
             coq::b(qp.fast),
             coq::b(indexed),
+            coq::b(t.ety == Ety::F32),
             coq::list(dl_s),
             coq::list(fresh)
         );
         let out = match &res {
             Ok(g) => format!("(Ok {})", coq::list(g.iter().map(|(i, d)| format!("({}, {})", i, f32_key(*d).coq())))),
+            Err(e) if e.contains("panic") => "Panic".into(),
             Err(_) => "Err".into(),
         };
         sink.nontrivial(&format!("search{}{:?}", t.name, (&q, qp.k, qp.refine, qp.nprobes, qp.fast, qp.use_index, qp.prefilter, t.hist.len())));
@@ -769,9 +786,12 @@ async fn table_history(ti: usize, dir: &std::path::Path, rng: &mut Rng, sink: &m
             _ => Ety::F32,
         },
     };
-    let dim = *rng.pick(&[1usize, 2, 3, 5, 7, 8, 9, 13, 16, 17, 24, 31, 33, 40]);
+    // axis tables: cosine with exactly representable distances (0, 1, 2, NaN for zero vectors) -> model stream
+    let axis = ti % 6 == 5 && std::env::var("HX_C22_ETY").is_err();
+    let ety = if axis { Ety::F32 } else { ety };
+    let dim = if axis { rng.range(2, 6) as usize } else { *rng.pick(&[1usize, 2, 3, 5, 7, 8, 9, 13, 16, 17, 24, 31, 33, 40]) };
     let mag = if ety == Ety::F16 { *rng.pick(&[1i64, 2, 3]) } else { *rng.pick(&[1i64, 2, 4]) };
-    let metric = [MetricType::L2, MetricType::Dot, MetricType::Cosine][(ti + rng.below(2) as usize) % 3];
+    let metric = if axis { MetricType::Cosine } else { [MetricType::L2, MetricType::Dot, MetricType::Cosine][(ti + rng.below(2) as usize) % 3] };
     let with_nulls = rng.chance(1, 3);
     let fsl_ty = fsl(ety, &[], dim).data_type().clone();
     let schema = Arc::new(Schema::new(vec![Field::new("id", DataType::Int32, false), Field::new("tag", DataType::Int32, false), Field::new("vec", fsl_ty, true)]));
@@ -786,7 +806,7 @@ async fn table_history(ti: usize, dir: &std::path::Path, rng: &mut Rng, sink: &m
     let mut t = Tbl { ds, schema: schema.clone(), rows, dim, ety, mag, with_nulls, metric, has_index: false, rowid2id: HashMap::new(), hist: vec![], name, nparts: 0, axis };
     t.hist.push(format!("write {n0} rows ({:?}, dim {dim}, |x|<={mag}, nulls={with_nulls}, max_rows_per_file={mrf})", ety));
     t.refresh().await?;
-    sink.count(&format!("table:{:?}:{:?}", ety, metric));
+    sink.count(&format!("table:{:?}:{:?}{}", ety, metric, if axis { ":axis" } else { "" }));
 
     // phase A: flat search, every metric
     for _ in 0..args.vol(4, 8) {
@@ -815,6 +835,18 @@ async fn table_history(ti: usize, dir: &std::path::Path, rng: &mut Rng, sink: &m
         }
     }
     t.refresh().await?;
+    if t.has_index && t.ety != Ety::F32 {
+        // known finding ivf_flat_non_f32: exhibit it on two queries, then continue the history without the index
+        let maxp = t.nparts;
+        for fast in [false, true] {
+            let qp = QP { metric: t.metric, k: rng.range(1, 9) as usize, flt: Flt::None, prefilter: true, refine: None, nprobes: Some(maxp), fast, use_index: true };
+            query(&t, rng, sink, st, qp, "ivf-all").await?;
+        }
+        t.ds.drop_index(IDX).await.map_err(es)?;
+        t.has_index = false;
+        t.hist.push("drop_index".into());
+        t.refresh().await?;
+    }
     let nops = args.vol(3, 6);
     for step in 0..=nops {
         if step > 0 {
@@ -884,7 +916,7 @@ pub fn run(args: &Args) -> i32 {
     let mut st = Streams {
         part: Stream::new("part", REQ, "chk_part", &format!("nat * bool * {crow_ty}"), "outcome (list (N * key))"),
         merge: Stream::new("merge", REQ, "chk_merge", "nat * list (list (N * key))", "list (N * key)"),
-        search: Stream::new("search", REQ, "chk_search", &format!("(nat * option nat * nat) * (bool * bool * bool * bool * bool) * list (list ({crow_ty})) * {crow_ty}"), "outcome (list (N * key))"),
+        search: Stream::new("search", REQ, "chk_search", &format!("(nat * option nat * nat) * (bool * bool * bool * bool * bool * bool) * list (list ({crow_ty})) * {crow_ty}"), "outcome (list (N * key))"),
     };
     st.part.shard = 150;
     st.merge.shard = 100;
